@@ -251,7 +251,18 @@ theorem ilti_step_allocIngest {s : Sys} (hs : SInv s) (h : ILTI s) (hil : ILInv 
           refine ⟨q, hq, hqne, hqa, hqc, ⟨preds, ret, hqk, ?_⟩, ?_⟩
           · intro r' hr' hrp'
             have : r' = r := hpw.eq_of_pid hr' hr (hrp'.trans hrp.symm)
-            rw [this]; exact hrdead
+            rw [this]
+            refine ⟨hrdead, ?_⟩
+            -- F13: the finish the body recorded (its last block + 1) is reached when the process polls
+            have h1 := hmin q hq hqa
+            have h2 : ((b + 1 : Nat) : Time) ≤ ((a + j : Nat) : Time) :=
+              Rat.natCast_le_natCast.mpr (by omega)
+            rw [Rat.natCast_add b 1] at h2
+            have h3 : ((1 : Nat) : Time) = 1 := rfl
+            rw [h3] at h2
+            rw [hw] at h1
+            rw [hrw]
+            grind
           · intro t ht htk hta
             have h1 := hpol t ht htk hta
             have h2 : ((b + 1 : Nat) : Time) ≤ ((a + j : Nat) : Time) :=
